@@ -1025,3 +1025,126 @@ Theorem C20_tdd_example :
   tsim acache unit ac_get nc_get ex_stA ex_stB.
 Proof. exact (conj ex_ops_pre (conj ex_runs_defined ex_sim)). Qed.
 Print Assumptions C20_tdd_example.
+
+(* ---------------------------------------------------------------------------------------------
+   Package ARCSLAB: the two node stores.  The ABSTRACT node store (coq/Tbl/RcStore.v): a map
+   id -> (payload, count) with fresh ids + the client's handle variables; AAdd puts a payload under
+   ANY unused id.  Whatever the ids are (slab addresses of the pointer-based manager, slot indices of
+   the index-based one) and however they are re-used, the results of a script are the same.  The slab
+   model (coq/Tbl/ArcSlab.v) refines the abstract store, a reference store with ids 0,1,2,... refines
+   it, hence both agree on every script.  (Qualified names: nothing is imported.) *)
+From Coq Require Import List NArith Bool Arith.
+From OxiVerif Require Tbl.ArcSlab Tbl.ArcSlabProofsBase Tbl.ArcSlabProofs Tbl.ArcSlabThms Tbl.RcStore Tbl.ArcSlabRefine
+  Tbl.ArcSlabReach Tbl.ArcSlabExamples.
+Import ListNotations.
+
+(* the abstract store: count = number of handle variables, never 0, under every step / script *)
+Theorem C20_store_step_inv : forall (I : Type) (ieqb : I -> I -> bool),
+  (forall a b, ieqb a b = true <-> a = b) ->
+  forall s o r s', RcStore.AInv I ieqb s -> RcStore.astep I ieqb s o r s' -> RcStore.AInv I ieqb s'.
+Proof. exact RcStore.astep_inv. Qed.
+Print Assumptions C20_store_step_inv.
+
+(* the results do not depend on the ids: two stores (any id types, any choice of fresh ids) in related
+   states (same handle variables, same (payload, count) behind corresponding handles, same aliasing)
+   return the same result for the same operation and stay related; whole scripts likewise *)
+Theorem C20_store_id_independent : forall (I1 I2 : Type) (eqb1 : I1 -> I1 -> bool) (eqb2 : I2 -> I2 -> bool),
+  (forall a b, eqb1 a b = true <-> a = b) -> (forall a b, eqb2 a b = true <-> a = b) ->
+  forall s1 s2 o r1 r2 s1' s2',
+  RcStore.AInv I1 eqb1 s1 -> RcStore.AInv I2 eqb2 s2 -> RcStore.sim I1 I2 s1 s2 ->
+  RcStore.astep I1 eqb1 s1 o r1 s1' -> RcStore.astep I2 eqb2 s2 o r2 s2' ->
+  r1 = r2 /\ RcStore.sim I1 I2 s1' s2'.
+Proof. exact RcStore.astep_id_independent. Qed.
+Print Assumptions C20_store_id_independent.
+
+Theorem C20_store_runs_id_independent : forall (I1 I2 : Type) (eqb1 : I1 -> I1 -> bool) (eqb2 : I2 -> I2 -> bool),
+  (forall a b, eqb1 a b = true <-> a = b) -> (forall a b, eqb2 a b = true <-> a = b) ->
+  forall os s1 s2 rs1 rs2 s1' s2',
+  RcStore.AInv I1 eqb1 s1 -> RcStore.AInv I2 eqb2 s2 -> RcStore.sim I1 I2 s1 s2 ->
+  RcStore.aruns I1 eqb1 s1 os rs1 s1' -> RcStore.aruns I2 eqb2 s2 os rs2 s2' ->
+  rs1 = rs2 /\ RcStore.sim I1 I2 s1' s2'.
+Proof. exact RcStore.aruns_id_independent. Qed.
+Print Assumptions C20_store_runs_id_independent.
+
+Theorem C20_store_sim_def : forall (I1 I2 : Type) (s1 : RcStore.astate I1) (s2 : RcStore.astate I2),
+  RcStore.sim I1 I2 s1 s2 <->
+  (map fst (RcStore.a_hs s1) = map fst (RcStore.a_hs s2) /\
+   (forall h id1 id2, RcStore.afind h (RcStore.a_hs s1) = Some id1 -> RcStore.afind h (RcStore.a_hs s2) = Some id2 ->
+      RcStore.a_map s1 id1 = RcStore.a_map s2 id2) /\
+   (forall h h' id1 id1' id2 id2',
+      RcStore.afind h (RcStore.a_hs s1) = Some id1 -> RcStore.afind h' (RcStore.a_hs s1) = Some id1' ->
+      RcStore.afind h (RcStore.a_hs s2) = Some id2 -> RcStore.afind h' (RcStore.a_hs s2) = Some id2' ->
+      (id1 = id1' <-> id2 = id2'))).
+Proof. intros. reflexivity. Qed.
+Print Assumptions C20_store_sim_def.
+
+(* (d) the slab refines the abstract store: ids = slot addresses, map = the items in their slots; in
+   every reachable state the abstraction satisfies the counting invariant, every item-level operation
+   (add_item, clone, drop, drop_with, into_inner, force_into_inner, deref) is ONE abstract step with the
+   same result, every other operation (ExtHandle::from, retain / release, ArcSlabRef clone / drop, num_items)
+   leaves the abstract state as it is *)
+Theorem C20_arcslab_abs_inv : forall spp, (1 <= spp)%nat -> forall y sl,
+  ArcSlabThms.reachable spp y -> ArcSlab.y_slab y = ArcSlab.Alive sl ->
+  RcStore.AInv ArcSlab.addr ArcSlab.addr_eqb (ArcSlabRefine.abs sl (ArcSlab.y_hs y)).
+Proof. exact ArcSlabReach.r_abs_inv. Qed.
+Print Assumptions C20_arcslab_abs_inv.
+
+Theorem C20_arcslab_refines_store : forall spp, (1 <= spp)%nat -> forall y sl o y' out,
+  ArcSlabThms.reachable spp y -> ArcSlab.y_slab y = ArcSlab.Alive sl -> ArcSlab.step spp y o = ArcSlab.Done y' out ->
+  match ArcSlabRefine.aproj o with
+  | Some ao =>
+      exists s', RcStore.astep ArcSlab.addr ArcSlab.addr_eqb (ArcSlabRefine.abs sl (ArcSlab.y_hs y)) ao (ArcSlabRefine.ares_of o out) s' /\
+                 RcStore.a_hs s' = ArcSlabRefine.abs_hs (ArcSlab.y_hs y') /\
+                 (forall sl', ArcSlab.y_slab y' = ArcSlab.Alive sl' -> forall j, RcStore.a_map s' j = ArcSlab.slot_read sl' j)
+  | None =>
+      ArcSlabRefine.abs_hs (ArcSlab.y_hs y') = ArcSlabRefine.abs_hs (ArcSlab.y_hs y) /\
+      (forall sl', ArcSlab.y_slab y' = ArcSlab.Alive sl' -> forall j, ArcSlab.slot_read sl' j = ArcSlab.slot_read sl j)
+  end.
+Proof. exact ArcSlabReach.r_refine_step. Qed.
+Print Assumptions C20_arcslab_refines_store.
+
+Theorem C20_arcslab_abs_def : forall sl hs o,
+  ArcSlabRefine.abs sl hs = RcStore.mkA (ArcSlab.slot_read sl) (map (fun e => (fst e, ArcSlab.h_addr (snd e))) hs) /\
+  ArcSlabRefine.aproj o =
+    match o with
+    | ArcSlab.OAdd h p => Some (RcStore.AAdd h p)
+    | ArcSlab.OClone h h2 => Some (RcStore.AClone h h2)
+    | ArcSlab.ODrop h | ArcSlab.ODropWith h | ArcSlab.OIntoInner h | ArcSlab.OForce h => Some (RcStore.AEnd h)
+    | ArcSlab.OGet h => Some (RcStore.AGet h)
+    | _ => None
+    end.
+Proof. intros. split; reflexivity. Qed.
+Print Assumptions C20_arcslab_abs_def.
+
+(* a reference store (ids 0, 1, 2, ... in order of creation, never re-used) refines the same abstract store *)
+Theorem C20_arcslab_reference_refines : forall r o r' res,
+  ArcSlabRefine.RInv r -> ArcSlabRefine.ref_step r o = Some (r', res) ->
+  RcStore.astep N N.eqb (ArcSlabRefine.rabs r) o res (ArcSlabRefine.rabs r') /\ ArcSlabRefine.RInv r'.
+Proof. exact ArcSlabRefine.ref_refines. Qed.
+Print Assumptions C20_arcslab_reference_refines.
+
+(* store equivalence: for every page size and every script of item-level operations (rejected ones
+   included) a new slab and a new reference store return the same results *)
+Theorem C20_arcslab_equiv_reference : forall spp, (1 <= spp)%nat -> forall ops,
+  forallb ArcSlabRefine.item_op ops = true ->
+  ArcSlabRefine.arc_exec spp (ArcSlab.init spp) ops =
+  ArcSlabRefine.ref_exec ArcSlabRefine.rinit (map ArcSlabRefine.aop_of ops).
+Proof. exact ArcSlabRefine.arcslab_equiv_reference. Qed.
+Print Assumptions C20_arcslab_equiv_reference.
+
+(* ... hence the page size is not observable through the results *)
+Theorem C20_arcslab_page_size_irrelevant : forall spp1 spp2, (1 <= spp1)%nat -> (1 <= spp2)%nat -> forall ops,
+  forallb ArcSlabRefine.item_op ops = true ->
+  ArcSlabRefine.arc_exec spp1 (ArcSlab.init spp1) ops = ArcSlabRefine.arc_exec spp2 (ArcSlab.init spp2) ops.
+Proof. exact ArcSlabRefine.arcslab_page_size_irrelevant. Qed.
+Print Assumptions C20_arcslab_page_size_irrelevant.
+
+Theorem C20_arcslab_example :
+  forallb ArcSlabRefine.item_op ArcSlabExamples.ex_item_ops = true /\
+  ArcSlabRefine.arc_exec 3 (ArcSlab.init 3) ArcSlabExamples.ex_item_ops =
+    ArcSlabRefine.ref_exec ArcSlabRefine.rinit (map ArcSlabRefine.aop_of ArcSlabExamples.ex_item_ops) /\
+  ArcSlabRefine.arc_exec 3 (ArcSlab.init 3) ArcSlabExamples.ex_item_ops =
+    [Some RcStore.ARAdded; Some RcStore.ARAdded; Some (RcStore.ARCount 2); Some RcStore.ARKept; Some (RcStore.ARVal 1 1);
+     Some (RcStore.ARGone 1); Some RcStore.ARAdded; Some (RcStore.ARGone 2); None; None].
+Proof. exact (conj ArcSlabExamples.ex_item_ops_ok ArcSlabExamples.ex_equiv). Qed.
+Print Assumptions C20_arcslab_example.
